@@ -45,6 +45,7 @@ thread_local! {
 	static FAIL_RESOLVE: Cell<u64> = const { Cell::new(0) };
 	static FAIL_LOAD: Cell<u64> = const { Cell::new(0) };
 	static TRACE_CAP: Cell<usize> = const { Cell::new(100_000) };
+	static REPR: RefCell<Option<String>> = const { RefCell::new(None) };
 }
 static LAST_PANIC: Mutex<Option<(String, String)>> = Mutex::new(None);
 
@@ -363,9 +364,31 @@ fn op_eval(job: &Map<String, Value>, states: &mut HashMap<String, Bundle>) -> Va
 				}
 				return Ok(serde_json::to_string(&files).expect("json"));
 			}
+			if job.get("repr").and_then(Value::as_bool).unwrap_or(false) {
+				// representation chain of an array value, read hook-free from its Debug
+				// output through a truncating writer
+				struct Trunc(String, usize);
+				impl std::fmt::Write for Trunc {
+					fn write_str(&mut self, s: &str) -> std::fmt::Result {
+						if self.0.len() + s.len() > self.1 {
+							return Err(std::fmt::Error);
+						}
+						self.0.push_str(s);
+						Ok(())
+					}
+				}
+				if let jrsonnet_evaluator::Val::Arr(a) = &val {
+					let mut t = Trunc(String::new(), 1500);
+					let _ = std::fmt::write(&mut t, format_args!("{a:?}"));
+					REPR.with_borrow_mut(|r| *r = Some(t.0));
+				}
+			}
 			let fmt = manifest_format(job.get("manifest"));
 			val.manifest(&fmt)
 		})();
+		if let Some(r) = REPR.with_borrow_mut(Option::take) {
+			out.insert("repr".to_owned(), Value::String(r));
+		}
 		match res {
 			Ok(text) => {
 				out.insert("ok".to_owned(), Value::String(text));
